@@ -243,6 +243,11 @@ func (pr *prompter) runScene(ctx context.Context, lines []scriptLine) (err error
 // runLine runs a script scene for just one actor.
 func (pr *prompter) runLine(ctx context.Context, a *actor, steps []step) error {
 	for stepNum, step := range steps {
+		if ctx.Err() != nil {
+			// The scene is being stopped: no further action starts
+			// (not even after a tolerated one was aborted).
+			return wrapCtxErr(ctx)
+		}
 		stepCtx := logtags.AddTag(ctx, "step", stepNum+1)
 
 		switch step.typ {
@@ -308,6 +313,14 @@ func (pr *prompter) runMoodChange(ctx context.Context, newMood string) error {
 }
 
 func (pr *prompter) reportCollectorEvent(ctx context.Context, ev collectorEvent) error {
+	// Deliver the event if the collector has room for it: the report of
+	// an action that was aborted comes with a context that is cancelled
+	// already, and the select below would drop it at random.
+	select {
+	case pr.collCh <- ev:
+		return nil
+	default:
+	}
 	select {
 	case <-pr.stopper.ShouldQuiesce():
 		log.Info(ctx, "terminated")
